@@ -12,7 +12,7 @@ from ..gen import rbytes
 
 RULE = ("fault enumeration on real runs of csvdump/unspentcsvdump/balances. Input faults: for every height of the range x {blk file "
         "removed, emptied, truncated at byte b of the stored block (quick: size prefix, header and every 7th byte; thorough: every byte), "
-        "index offset past EOF}: exit!=0, 'Error at height N' with N = lowest height whose stored bytes are cut, no final-named file. "
+        "index offset past EOF}, on plain and on XOR-obfuscated directories: exit!=0, 'Error at height N' with N = lowest height whose stored bytes are cut, no final-named file. "
         "Output faults: RLIMIT_FSIZE on a grid from 0 to beyond the full output size (short write + EFBIG, SIGXFSZ ignored) and strace-"
         "injected ENOSPC/EIO at the k-th write to an output file for every k, on outputs below the 4 MB writer buffer and of 8-20 MB. "
         "Crash points: SIGKILL injected at every ordinal of openat/write/rename/close touching an output path, plus SIGKILL at random instants of multi-MB runs. Oracles: (1) outcome: "
@@ -120,7 +120,8 @@ def prepare(spec, work):
     d = os.path.join(work, "d")
     nfiles = spec.get("nfiles", 1)
     kw, desc, pl_index = layouts.make_layout(rng, chain, coin, assign="contiguous" if nfiles > 1 else "single", nfiles=nfiles)
-    datadir.write_datadir(d, COINS[coin], **kw)
+    xor_key = bytes(rng.randrange(1, 256) for _ in range(8)) if spec.get("xor") else None
+    datadir.write_datadir(d, COINS[coin], xor_key=xor_key, **kw)
     return chain, d, kw, pl_index
 
 
@@ -388,7 +389,7 @@ def plan(chk):
             for nfiles, rng_opt in ((1, (None, None)), (3, (None, None)), (3, (2, 4)), (2, (1, None))):
                 n += 1
                 specs.append(dict(case="input", callback=cbname, coin=coins[n % 8], seed=chk.seed + rep, chain="in-%d" % n, n=n, nfiles=nfiles, blocks=6,
-                                  start=rng_opt[0], end=rng_opt[1], every_byte=chk.thorough, max_cuts=None if chk.thorough else 25))
+                                  start=rng_opt[0], end=rng_opt[1], every_byte=chk.thorough, max_cuts=None if chk.thorough else 25, xor=(n % 2 == 0)))
         # output faults: small (<4 MB buffer) and large outputs
         for mb, faults in ((None, ["fsize", "inject", "kill"]), (110000, ["fsize", "inject", "kill"])):
             n += 1
